@@ -83,7 +83,7 @@ func (o *c11obs) Finish(ps *PState) bool { return o.blocks > 0 && o.cr.blocksMat
 func init() {
 	core.Register(&histProp{
 		base: base{id: "C11", level: "exploration",
-			rule: "OSAP histories (MinMatchLen 2..8, MaxMatchLen from MinMatchLen to 1000, all window/buffer/block geometries up to 333 bytes, multi-fill incl. Shrink, Parse(nil), NoTrailingLiterals blocks in between and blocks that reuse computed edges) on small alphabets, periodic and LZ-synthetic strings; the cost of every flags-0 block is compared with an independent O(n*W*L) dynamic program over all admissible sources (inside the still buffered data and the window) and lengths; a block cheaper than the optimum is re-validated for admissibility; non-trivial iff at least one checked block contains a match; distinct = distinct concrete case",
+			rule:        "OSAP histories (MinMatchLen 2..8, MaxMatchLen from MinMatchLen to 1000, all window/buffer/block geometries up to 333 bytes, multi-fill incl. Shrink, Parse(nil), NoTrailingLiterals blocks in between and blocks that reuse computed edges) on small alphabets, periodic and LZ-synthetic strings; the cost of every flags-0 block is compared with an independent O(n*W*L) dynamic program over all admissible sources (inside the still buffered data and the window) and lengths; a block cheaper than the optimum is re-validated for admissibility; non-trivial iff at least one checked block contains a match; distinct = distinct concrete case",
 			assumptions: []string{"cost function XZCost with 9 bits per literal as stated by the property", "admissible sources are the bytes at absolute positions >= sum of Shrink results"},
 			mandatory:   []string{"blocks_checked_against_optimum", "blocks_checked_after_shrink", "optimal_blocks_with_matches", "shrink_discarding"}},
 		types: []string{"OSAP"}, quickN: 12000, thorMul: 40, corpusN: 1500, large: false,
@@ -178,12 +178,12 @@ func (o *c12obs) Finish(ps *PState) bool { return o.blocks > 1 && o.cr.blocksMat
 func init() {
 	core.Register(&histProp{
 		base: base{id: "C12", level: "exploration",
-			rule: "GSAP histories without Parse(nil) (both flag values, several blocks per fill, second and later fills, Shrink, Reset incl. data) on alphabets of 2-3 letters, periodic, two-letter-run and LZ-synthetic strings; for every emitted match the brute-force longest previous match over all still buffered earlier positions (clipped at the block end) must have exactly the emitted length; when BufferSize <= WindowSize every literal byte is checked to have no earlier match of >= MinMatchLen; non-trivial iff >= 2 blocks were checked and one has a match; distinct = distinct concrete case",
+			rule:        "GSAP histories without Parse(nil) (both flag values, several blocks per fill, second and later fills, Shrink, Reset incl. data) on alphabets of 2-3 letters, periodic, two-letter-run and LZ-synthetic strings; for every emitted match the brute-force longest previous match over all still buffered earlier positions (clipped at the block end) must have exactly the emitted length; when BufferSize <= WindowSize every literal byte is checked to have no earlier match of >= MinMatchLen; non-trivial iff >= 2 blocks were checked and one has a match; distinct = distinct concrete case",
 			assumptions: []string{"the block end used for clipping is parse position + min(BlockSize, unparsed), also for NoTrailingLiterals blocks"},
 			mandatory:   []string{"gsap_blocks_checked", "gsap_blocks_checked_after_rebuild", "matches_checked", "literal_positions_checked", "blocks_ntl", "resets_ok"}},
 		types: []string{"GSAP"}, quickN: 16000, thorMul: 40, corpusN: 2000, large: false,
 		weights: HWeights{Write: 18, ReadFrom: 6, Parse: 34, ParseNTL: 16, ParseNil: 0, Shrink: 12, Reset: 2, ResetData: 3},
-		opts: func(typ string) gen.Opts { return gen.Opts{} },
+		opts:    func(typ string) gen.Opts { return gen.Opts{} },
 		tweak: func(r *rand.Rand, pc *PCase, kind string) {
 			if r.Intn(2) == 0 {
 				// the literal clause needs BufferSize <= WindowSize
@@ -327,7 +327,7 @@ func (o *c19obs) Finish(ps *PState) bool { return o.cr.blocksMatch > 0 }
 func init() {
 	core.Register(&histProp{
 		base: base{id: "C19", level: "exploration",
-			rule: "maximality: every match of every block of the C01-style histories (all parsers but OSAP) is compared with the following byte and, for BHP/BDHP, the preceding literal with the byte Offset before it when that byte is still buffered; run clause: additional 'run' histories over prefix + c^N + suffix streams (c in {0x00,0x01,'a',0xff,random}, N from 32 to several buffer fills, chunked delivery, Shrink between blocks, WindowSize 1 for hash parsers and 2 for GSAP) where every flags-0 block of >= 32 equal bytes may carry at most 1 literal (hash parsers) resp. MinMatchLen literals (GSAP/OSAP, MinMatchLen <= 8); non-trivial iff the history has a block with a match; distinct = distinct concrete case",
+			rule:        "maximality: every match of every block of the C01-style histories (all parsers but OSAP) is compared with the following byte and, for BHP/BDHP, the preceding literal with the byte Offset before it when that byte is still buffered; run clause: additional 'run' histories over prefix + c^N + suffix streams (c in {0x00,0x01,'a',0xff,random}, N from 32 to several buffer fills, chunked delivery, Shrink between blocks, WindowSize 1 for hash parsers and 2 for GSAP) where every flags-0 block of >= 32 equal bytes may carry at most 1 literal (hash parsers) resp. MinMatchLen literals (GSAP/OSAP, MinMatchLen <= 8); non-trivial iff the history has a block with a match; distinct = distinct concrete case",
 			assumptions: []string{"the block end for maximality is parse position + min(BlockSize, unparsed)"},
 			mandatory:   []string{"matches_checked_for_maximality", "matches_ending_inside_block", "matches_ending_at_block_end", "backward_extension_checked", "run_blocks_checked", "run_blocks_inside_run", "run_blocks_of_zero_bytes", "run_blocks_with_tiny_window"}},
 		types: gen.ParserTypes, quickN: 4000, thorMul: 50, corpusN: 600, large: true,
